@@ -459,9 +459,9 @@ def _run_R(griffe, acc, case):
                     acc.violation(f"property/{attr}-which", f"p.{attr} is the def at line {g.lineno}, CPython uses the one at line {f.__code__.co_firstlineno}", case, {"src": src})
                 if (label in m.labels) != (f is not None):
                     acc.violation(f"property/label-{label}", f"label {label} present={label in m.labels}, CPython {attr}={'set' if f else 'unset'}", case, {"src": src})
-            defline = next(n for n in range(obj.fget.__code__.co_firstlineno, len(lines) + 1) if lines[n - 1].lstrip().startswith("def "))
-            if m.lineno != defline:
-                acc.violation("property/getter-which", f"property attribute is the def at line {m.lineno}, CPython fget is at line {defline}", case, {"src": src})
+            first = obj.fget.__code__.co_firstlineno  # first decorator line, like every decorated definition
+            if m.lineno != first:
+                acc.violation("property/getter-which", f"property attribute is the definition starting at line {m.lineno}, CPython fget starts at line {first}", case, {"src": src})
     else:
         if not m.is_function:
             acc.violation("property/plain-def-lost", f"p is a plain function in CPython but Griffe has {m.kind.value}", case, {"src": src})
